@@ -50,13 +50,14 @@ def ranked_next(vote: RankedVoteType,
     take_next = False
     for rank_alt in vote:
         if isinstance(rank_alt, frozenset):
+            if not take_next and cand in rank_alt:
+                # candidates sharing the rank with cand come before lower ranks
+                take_next = True
             if take_next:
                 allowed_alt = rank_alt.intersection(allowed)
                 if allowed_alt:
                     return allowed_alt
                 # else go on for another rank
-            elif cand in rank_alt:
-                take_next = True
         else:
             if take_next:
                 if rank_alt in allowed:
